@@ -203,8 +203,6 @@ theorem loadConfig_plain (reg : Registry) (isToml : Bool) (doc : CfgVal) (kvs : 
       .ok { cfg := .map kvs, profiles := [],
             legacyData := ((lookupKV kvs "blacklist_calls".toList).getD .null).truthy ||
                           ((lookupKV kvs "blacklist_imports".toList).getD .null).truthy } := by
-  unfold loadConfig
-  simp only [hx, Outcome.bind_ok]
   have hin : pyIn "profiles".toList (.map kvs) = .ok false := by
     show (pure (kvs.any (fun kv => kv.1 == "profiles".toList)) : M Bool) = _
     rw [any_key_eq_isSome, hnp]; rfl
@@ -212,7 +210,8 @@ theorem loadConfig_plain (reg : Registry) (isToml : Bool) (doc : CfgVal) (kvs : 
     unfold validate
     simp only [hin, Outcome.ofM_ok, Outcome.bind_ok]
     rfl
-  simp only [hv, Outcome.bind_ok]
+  unfold loadConfig
+  simp only [hx, Outcome.bind_ok, hv]
   unfold convertLegacy
   rw [getOption_map kvs _ dotfree_profiles, getOption_map kvs _ dotfree_blc, getOption_map kvs _ dotfree_bli]
   rw [hnp]
@@ -220,7 +219,13 @@ theorem loadConfig_plain (reg : Registry) (isToml : Bool) (doc : CfgVal) (kvs : 
 
 theorem tomlExtract_tomlDoc (kvs : List (Str × CfgVal)) :
     tomlExtract (Spec.tomlDoc (.map kvs)) = .ok (.map kvs) := by
-  simp [tomlExtract, Spec.tomlDoc, pyDotGet, lookupKV, List.find?, bind, Except.bind, pure, Except.pure]
+  have h1 : lookupKV [("project".toList, CfgVal.map [("name".toList, .str "demo".toList)]),
+      ("tool".toList, .map [("bandit".toList, .map kvs)])] "tool".toList = some (.map [("bandit".toList, .map kvs)]) := by
+    rw [lookupKV_cons_ne _ _ _ (by simp), lookupKV_cons_eq _ _ _ (by simp)]
+  have h2 : lookupKV [("bandit".toList, CfgVal.map kvs)] "bandit".toList = some (.map kvs) := by
+    rw [lookupKV_cons_eq _ _ _ (by simp)]
+  simp only [tomlExtract, Spec.tomlDoc, h1, h2, Option.getD_some]
+  rfl
 
 theorem lookupKV_none_of_keys (kvs : List (Str × CfgVal)) (k : Str) (h : ∀ kv ∈ kvs, kv.1 ≠ k) :
     lookupKV kvs k = none := by
@@ -300,14 +305,14 @@ theorem idsOf_list_map (ids : List Str) : Spec.idsOf (.list (ids.map CfgVal.str)
 theorem union_nil_right (a : List Str) : union a [] = a.eraseDups := by simp [union]
 theorem union_nil_left (a : List Str) : union [] a = a.eraseDups := by simp [union]
 
-theorem rankIndex_one : rankIndex (.int 1) = .ok 1 := rfl
+theorem rankIndex_one : rankIndex 1 = .ok 1 := by simp [rankIndex, pure, Except.pure]
 
 /-- the scan stage for a config that sets no plugin block and no `exclude_dirs`, with default flags -/
 theorem stageScan_plain (w : World) (ld : Loaded) (a : Args) (kvs : List (Str × CfgVal)) (inc exc : List Str)
     (hcfg : ld.cfg = .map kvs) (hleg : ld.legacyData = false)
     (hd : ∀ kv ∈ w.defaults, '.' ∉ kv.1) (hk : ∀ kv ∈ w.defaults, lookupKV kvs kv.1 = none)
     (hx : lookupKV kvs "exclude_dirs".toList = none)
-    (hex : a.excluded = w.dx) (hsev : a.severity = .int 1) (hconf : a.confidence = .int 1) :
+    (hex : a.excluded = w.dx) (hsev : a.severity = 1) (hconf : a.confidence = 1) :
     stageScan w ld a (inc, exc, false) =
       (if !(runnableIds w.reg).any (keep w.reg inc exc) then .reject .noTests
        else .ok { inc := inc, exc := exc, settings := w.defaults, globs := cliGlobs w.isDir w.dx,
@@ -326,7 +331,7 @@ theorem run_plain (w : World) (c : Cli) (ini : IniOutcome) (a : Args) (ld : Load
     (hs : Spec.idsOf ((lookupKV kvs "skips".toList).getD .null) = some cs)
     (hd : ∀ kv ∈ w.defaults, '.' ∉ kv.1) (hk : ∀ kv ∈ w.defaults, lookupKV kvs kv.1 = none)
     (hx : lookupKV kvs "exclude_dirs".toList = none)
-    (hex : a.excluded = w.dx) (hsev : a.severity = .int 1) (hconf : a.confidence = .int 1)
+    (hex : a.excluded = w.dx) (hsev : a.severity = 1) (hconf : a.confidence = 1)
     (ts ss : List Str) (hinc : union ct (splitIds a.tests) = ts.eraseDups) (hexc : union cs (splitIds a.skips) = ss.eraseDups) :
     run w c ini = Spec.selectionOutcome w a.targets ts ss := by
   rw [run_noprofile w c ini a ld kvs ct cs hres hload htg hcfg hp ht hs, hinc, hexc,
@@ -462,10 +467,8 @@ theorem mergeIni_iniSel (dx : Str) (ts ss tg : List Str)
     iniGet_iniSel_other ts ss "configfile" (by decide) (by decide),
     iniGet_iniSel_other ts ss "exclude" (by decide) (by decide),
     iniGet_iniSel_other ts ss "targets" (by decide) (by decide),
-    iniGet_iniSel_other ts ss "profile" (by decide) (by decide),
-    iniGet_iniSel_other ts ss "level" (by decide) (by decide),
-    iniGet_iniSel_other ts ss "confidence" (by decide) (by decide)]
-  simp [srcNone, truthyOpt, srcDefaultStr, srcDefaultNum, htg']
+    iniGet_iniSel_other ts ss "profile" (by decide) (by decide)]
+  simp [srcNone, truthyOpt, srcDefaultStr, htg']
 
 /-- the abstract selection as the `[bandit]` section of an INI file -/
 theorem run_ini (w : World) (ts ss tg : List Str)
@@ -481,8 +484,13 @@ theorem run_ini (w : World) (ts ss tg : List Str)
       have h2 : ss = [] := by cases ss <;> simp_all [Spec.iniSel]
       subst h1; subst h2
       rfl
-    · simp only [resolveArgs, he, Bool.false_eq_true, if_false, Outcome.pure_eq]
-      exact congrArg Outcome.ok (mergeIni_iniSel w.dx ts ss tg hts hss htg)
+    · simp only [resolveArgs, he, Bool.false_eq_true, if_false, Outcome.pure_eq,
+        iniGet_iniSel_other ts ss "level" (by decide) (by decide),
+        iniGet_iniSel_other ts ss "confidence" (by decide) (by decide), srcDefaultNum, pure, Except.pure,
+        Outcome.ofM_ok, Outcome.bind_ok]
+      have hm : mergeIni w.dx c (Spec.iniSel ts ss) = c'.toArgs := mergeIni_iniSel w.dx ts ss tg hts hss htg
+      rw [hm]
+      rfl
   exact run_plain w c _ c'.toArgs noConfig noCfgKvs [] [] hres (stageLoad_none w _ rfl) htg noConfig_cfg rfl rfl
     (by rw [lookup_nocfg_other _ (by decide) (by decide)]; rfl) (by rw [lookup_nocfg_other _ (by decide) (by decide)]; rfl)
     (plain_dotfree hplain) (plain_nocfg hplain) (lookup_nocfg_other _ (by decide) (by decide))
@@ -492,89 +500,53 @@ theorem run_ini (w : World) (ts ss tg : List Str)
 
 /-! ## rejecting bad files -/
 
-theorem pyIn_profiles_of_not_scalarLike (v : CfgVal) (hs : scalarLike v = false) (hm : ∀ kvs, v ≠ .map kvs) :
-    pyIn "profiles".toList v = .ok false := by
-  cases v with
-  | null => simp [scalarLike] at hs
-  | bool b => simp [scalarLike] at hs
-  | int i => simp [scalarLike] at hs
-  | str s => simp only [scalarLike] at hs; simp only [pyIn, hs]; rfl
-  | list xs => simp only [scalarLike] at hs; simp only [pyIn, hs]; rfl
-  | map kvs => exact absurd rfl (hm kvs)
-
-theorem validate_of_not_scalarLike (v : CfgVal) (hs : scalarLike v = false) (hm : ∀ kvs, v ≠ .map kvs) :
-    validate v = .ok () := by
-  unfold validate
-  simp only [pyIn_profiles_of_not_scalarLike v hs hm, Outcome.ofM_ok, Outcome.bind_ok]
-  rfl
-
-theorem loadTail_nonmap (reg : Registry) (v : CfgVal) (hs : scalarLike v = false) (hm : ∀ kvs, v ≠ .map kvs) :
-    (do validate v
-        match v with
-        | .map _ => convertLegacy reg v
-        | _ => (.reject .notMapping : Outcome Loaded)) = .reject .notMapping := by
-  rw [validate_of_not_scalarLike v hs hm]
-  cases v with
-  | map kvs => exact absurd rfl (hm kvs)
-  | _ => rfl
-
-/-- a bad file outside the known-finding region is rejected by `BanditConfig(...)` -/
-theorem loadConfig_bad (reg : Registry) (isToml : Bool) (fo : FileOutcome)
-    (hbad : Spec.BadFile isToml fo = true) (hg : Guard isToml fo = true) :
+/-- a bad file is rejected by `BanditConfig(...)`, whatever the parser returned -/
+theorem loadConfig_bad (reg : Registry) (isToml : Bool) (fo : FileOutcome) (hbad : Spec.BadFile isToml fo = true) :
     ∃ r, loadConfig reg isToml fo = .reject r ∧ (r = .unreadable ∨ r = .unparsable ∨ r = .notMapping) := by
   cases fo with
   | unreadable => exact ⟨_, rfl, Or.inl rfl⟩
   | syntaxError => exact ⟨_, rfl, Or.inr (Or.inl rfl)⟩
-  | undecodable =>
-    simp only [Guard, Bool.not_eq_true'] at hg
-    subst hg
-    exact ⟨_, rfl, Or.inr (Or.inl rfl)⟩
-  | parsedOther => simp [Guard] at hg
+  | undecodable => exact ⟨_, rfl, Or.inr (Or.inl rfl)⟩
+  | parsedOther => exact ⟨_, rfl, Or.inr (Or.inr rfl)⟩
   | parsed doc =>
     refine ⟨.notMapping, ?_, Or.inr (Or.inr rfl)⟩
     cases isToml with
     | false =>
-      simp only [Guard, Bool.false_eq_true, if_false, Bool.not_eq_true'] at hg
-      have hm : ∀ kvs, doc ≠ .map kvs := by
-        intro kvs e; subst e; simp [Spec.BadFile] at hbad
-      simp only [loadConfig, extractDoc, Bool.false_eq_true, if_false, Outcome.bind_ok]
-      first | exact loadTail_nonmap reg doc hg hm | (rw [validate_of_not_scalarLike doc hg hm]; rfl)
+      cases doc with
+      | map kvs => simp [Spec.BadFile] at hbad
+      | _ => rfl
     | true =>
-      simp only [Guard, if_true] at hg
       simp only [Spec.BadFile, if_true] at hbad
       cases doc with
       | map kvs =>
-        simp only at hg hbad
+        simp only at hbad
         cases ht : lookupKV kvs "tool".toList with
-        | none => rw [ht] at hbad; exact absurd hbad (by simp)
+        | none => rw [ht] at hbad; simp at hbad
         | some tool =>
-          rw [ht] at hg hbad
+          rw [ht] at hbad
           cases tool with
           | map t =>
-            simp only at hg hbad
+            simp only at hbad
             cases hb : lookupKV t "bandit".toList with
-            | none => rw [hb] at hbad; exact absurd hbad (by simp)
+            | none => rw [hb] at hbad; simp at hbad
             | some v =>
-              rw [hb] at hg hbad
-              simp only [Bool.not_eq_true'] at hg
-              have hm : ∀ kvs, v ≠ .map kvs := by
-                intro kvs e; subst e; simp at hbad
+              rw [hb] at hbad
               have hx : extractDoc true (.map kvs) = .ok v := by
-                have hnn : v ≠ .null := by intro e; subst e; simp [scalarLike] at hg
-                simp only [extractDoc, if_true, tomlExtract, pyDotGet, ht, hb, Option.getD_some, bind, Except.bind, pure, Except.pure]
-                cases v <;> first | rfl | exact absurd rfl hnn
+                simp only [extractDoc, if_true, tomlExtract, ht, hb, Option.getD_some]; rfl
               simp only [loadConfig, hx, Outcome.bind_ok]
-              first | exact loadTail_nonmap reg v hg hm | (rw [validate_of_not_scalarLike v hg hm]; rfl)
-          | null => simp at hg
-          | bool b => simp at hg
-          | int i => simp at hg
-          | str s => simp at hg
-          | list l => simp at hg
-      | null => simp at hg
-      | bool b => simp at hg
-      | int i => simp at hg
-      | str s => simp at hg
-      | list l => simp at hg
+              cases v with
+              | map m => simp at hbad
+              | _ => rfl
+          | null => simp only [loadConfig, extractDoc, if_true, tomlExtract, ht]; rfl
+          | bool b => simp only [loadConfig, extractDoc, if_true, tomlExtract, ht]; rfl
+          | int i => simp only [loadConfig, extractDoc, if_true, tomlExtract, ht]; rfl
+          | str s => simp only [loadConfig, extractDoc, if_true, tomlExtract, ht]; rfl
+          | list l => simp only [loadConfig, extractDoc, if_true, tomlExtract, ht]; rfl
+      | null => simp at hbad
+      | bool b => simp at hbad
+      | int i => simp at hbad
+      | str s => simp at hbad
+      | list l => simp at hbad
 
 /-! ## precedence -/
 
@@ -599,18 +571,18 @@ theorem resolve_ini_as_cli (dx : Str) (kvs : List (Str × Str)) (tg : List Str) 
   | nil => rfl
   | cons kv rest =>
     simp only [resolveArgs, List.isEmpty_cons, Bool.false_eq_true, if_false, Outcome.pure_eq, mergeIni, hl, hc,
+      srcDefaultNum, pure, Except.pure, Outcome.ofM_ok, Outcome.bind_ok,
       srcNone_none, srcDefaultStr_same, Spec.cliOfIni, Cli.toArgs, htg', Bool.not_false, if_true]
-    rfl
 
 theorem mergeIni_congr_tests (dx : Str) (c : Cli) (kvs kvs' : List (Str × Str)) (hc : truthyOpt c.tests = true)
     (h : ∀ k : String, k ≠ "tests" → iniGet kvs k = iniGet kvs' k) : mergeIni dx c kvs = mergeIni dx c kvs' := by
   simp only [mergeIni, srcNone_given c.tests _ hc, h "configfile" (by decide), h "exclude" (by decide), h "skips" (by decide),
-    h "targets" (by decide), h "profile" (by decide), h "level" (by decide), h "confidence" (by decide)]
+    h "targets" (by decide), h "profile" (by decide)]
 
 theorem mergeIni_congr_skips (dx : Str) (c : Cli) (kvs kvs' : List (Str × Str)) (hc : truthyOpt c.skips = true)
     (h : ∀ k : String, k ≠ "skips" → iniGet kvs k = iniGet kvs' k) : mergeIni dx c kvs = mergeIni dx c kvs' := by
   simp only [mergeIni, srcNone_given c.skips _ hc, h "configfile" (by decide), h "exclude" (by decide), h "tests" (by decide),
-    h "targets" (by decide), h "profile" (by decide), h "level" (by decide), h "confidence" (by decide)]
+    h "targets" (by decide), h "profile" (by decide)]
 
 /-! ## unknown profile, contradiction -/
 
